@@ -184,6 +184,9 @@ func (k *Kit) buildCRL(beh string, slot int) *CRLSet {
 	}
 	base := &pki.CRL{IssuerRawName: k.Issuer.RawSubject, SignKey: k.IKey, NextUpdate: pki.Future, Number: big.NewInt(100),
 		Entries: []pki.CRLEntry{other(1), other(-1)}}
+	// neighbours' entries in DESCENDING serial order: nothing may rely on (or
+	// establish) a sorted list
+	base.Entries[0], base.Entries[1] = base.Entries[1], base.Entries[0]
 	var delta *pki.CRL
 	if CRLHasDelta(beh) {
 		delta = &pki.CRL{IssuerRawName: k.Issuer.RawSubject, SignKey: k.IKey, NextUpdate: pki.Future, Number: big.NewInt(101),
@@ -356,6 +359,7 @@ type Cache struct {
 	PanicOn  string // "get" | "set": panic with PanicVal
 	PanicVal any
 	Net      *netsim.Sim // if set, operations are noted in the network's event log
+	WrapMiss bool        // a miss is reported as an error WRAPPING crl.ErrCacheMiss
 }
 
 // ErrCache is the injected cache fault.
@@ -385,6 +389,9 @@ func (c *Cache) Get(ctx context.Context, url string) (*crl.Bundle, error) {
 	b, ok := c.M[url]
 	c.Ops = append(c.Ops, CacheOp{Op: "get", URL: url, Hit: ok})
 	if !ok {
+		if c.WrapMiss {
+			return nil, fmt.Errorf("cache double: %q: %w", url, crl.ErrCacheMiss)
+		}
 		return nil, crl.ErrCacheMiss
 	}
 	return b, nil
